@@ -29,6 +29,9 @@ def run(ctx):
     r84(ctx, ut)
     r85(ctx, api)
     r86(ctx, ut)
+    r87(ctx, ut)
+    from . import c14 as _c14
+    _c14.r146(ctx, 'R8.8')
     c05.r56(ctx)
     from . import c14
     c14.r144(ctx, api, wr)
@@ -213,3 +216,24 @@ def r86(ctx, ut):
                     v = r.value
                     ok = (isinstance(v, ast.Name) and v.id == g.args.args[0].arg) or (isinstance(v, ast.Constant) and isinstance(v.value, bool))
                     ctx.ob('R8.6', 'util._val_to_num:early-exit-returns-argument-or-boolean:%s' % norm(st.test)[:40], ok, norm(r), ut.loc(r))
+
+
+def r87(ctx, ut, rule='R8.7'):
+    """typed parse of partition text: the boolean arm accepts what the writer puts in the path (str(True) = 'True')
+    and the numeric spellings a filter constant may take; the numpy_type recorded for a pandas nullable integer is the
+    numpy spelling (lower case) that the reader hands to np.dtype"""
+    f = ut.func('val_from_meta')
+    lists = [x for x in ast.walk(f) if isinstance(x, ast.Compare) and isinstance(x.ops[0], ast.In) and isinstance(x.comparators[0], (ast.List, ast.Tuple, ast.Set))]
+    vals = set()
+    for x in lists:
+        for e in x.comparators[0].elts:
+            if isinstance(e, ast.Constant):
+                vals.add(repr(e.value))
+    need = {repr(True), repr('True'), repr('true'), repr(1), repr('1')}
+    ctx.ob(rule, 'util.val_from_meta:boolean-spellings-cover-text-and-numeric-forms', need <= vals,
+           'accepted spellings %s; missing %s' % (sorted(vals), sorted(need - vals)), ut.loc(f))
+    g = ut.func('get_numpy_type')
+    arm = [st for st in ast.walk(g) if isinstance(st, ast.If) and "'Int' in str(dtype)" in norm(st.test)]
+    ok = bool(arm) and any(isinstance(r, ast.Return) and norm(r.value) == 'str(dtype).lower()' for r in arm[0].body)
+    ctx.ob(rule, 'util.get_numpy_type:nullable-integers-recorded-under-their-numpy-name', ok,
+           "np.dtype('Int64') does not exist; the reader parses the recorded name with np.dtype", ut.loc(g))
